@@ -35,6 +35,7 @@ func init() {
 			{"C04.L5", "q", "flush: write, detach under lock, then free", c04l5},
 			{"C04.L6", "q", "dataStore.flush under flushLock with fail-stop size check", c04l6},
 			{"C04.L7", "q", "guarded-by tables", c04l7},
+			{"C13.R4", "q", "shared: writes refresh the collision table with the full position (Bucket.get consults it first)", c13r4},
 			{"C04.L8", "t", "lock-order graph acyclic", c04l8},
 		},
 	})
